@@ -163,6 +163,8 @@ impl Prop for C16 {
         let mut r = RunSpec::new("opreturn");
         r.threads = pick_threads(rng);
         r.plan = benign_plan(rng);
+        // where stdout points must not matter: sometimes a pseudo-terminal instead of a file
+        r.tty = rng.chance(1, 5);
         scn.runs.push(r.clone());
         if t >= 1 {
             let mut r2 = r.clone();
@@ -267,6 +269,9 @@ impl Prop for C16 {
         for (r, o) in scn.runs.iter().zip(outs.iter()) {
             if r.start.is_some() {
                 st.probe("sub_range_run");
+            }
+            if r.tty {
+                st.probe("stdout_is_a_terminal");
             }
             if !o.exit.ok() {
                 v.push(viol("C16/run-failed", format!("exit {:?}: {}", o.exit, super::c01::tail(&o.stderr_str()))));
